@@ -32,6 +32,7 @@ func (s *Scanner) switchToAnnotation() {
 	}
 
 	s.returnToStep.Push(s.step)
+	s.afterFirstSlash = true
 
 	switch s.annotation {
 	case annotationNone:
@@ -46,6 +47,7 @@ func (s *Scanner) switchToAnnotation() {
 }
 
 func stateAnyAnnotationStart(s *Scanner, c byte) state {
+	s.afterFirstSlash = false
 	switch c {
 	case '/': // second slash - inline annotation
 		s.annotation = annotationInline
@@ -65,6 +67,7 @@ func stateAnyAnnotationStart(s *Scanner, c byte) state {
 // Inline annotations states.
 
 func stateInlineAnnotationStart(s *Scanner, c byte) state {
+	s.afterFirstSlash = false
 	// second slash - inline annotation
 	if c != '/' {
 		panic(s.newJSchemaErrorAtCharacter("after first slash on start inline annotation"))
